@@ -181,7 +181,7 @@ def op_kinds(ops):
     return "+".join(sorted(ks))
 
 
-def stable_divergence(ctx, h, upto):
+def stable_divergence(ctx, h, upto, exact=False):
     """A Converged failure only counts when it is not an effect of nondeterminism (that is C06's subject):
     the history is re-run 6 times next to 4 fresh controllers each; it is stable when every run diverges and
     all fresh controllers of all runs agree."""
@@ -197,8 +197,9 @@ def stable_divergence(ctx, h, upto):
     out, _ = run_histories(ctx, hs, "confirm-" + re.sub(r"\W", "_", h["id"]), fresh=4)
     ctx.traces_validated -= len(hs)
     last = [e for e in core.read_ndjson(out) if e["ev"] == "State" and e["step"] == upto]
-    fresh = {d for e in last for d in e["fresh"]}
-    return len(fresh) == 1 and all(e["inc"] not in fresh for e in last)
+    fk, ik = ("freshx", "incx") if exact else ("fresh", "inc")
+    fresh = {d for e in last for d in e[fk]}
+    return len(fresh) == 1 and all(e[ik] not in fresh for e in last)
 
 
 def reproduced(ctx, h, upto, pred, runs=3):
@@ -258,6 +259,11 @@ def report(ctx, res, events_file, hist_file, invs, extra_sig=None, confirm=True)
         # one instance per signature is examined and reported (the shortest history first)
         if done.get(sig, 0) >= 1:
             done[sig] += 1
+            continue
+        if inv == "DiskExact" and confirm and not stable_divergence(ctx, hs[tr], b["step"], exact=True):
+            # (e.g. the same server-alias on two hosts with overlapping paths: how the entries are spread over priority match files follows
+            # the iteration order of a map, in fresh controllers as well)
+            ctx.notes.append("history %s batch %d: freshly started controllers do not agree on the exact files themselves (nondeterminism, judged by C06), not counted" % (tr, b["step"]))
             continue
         if inv in ("Converged", "ModelConverged") and confirm and not stable_divergence(ctx, hs[tr], b["step"]):
             ctx.notes.append("history %s batch %d: divergence not stable across runs (nondeterminism, judged by C06), not counted" % (tr, b["step"]))
